@@ -126,8 +126,8 @@ def make_shadow(dest, variant, harness_files, harness_index):
     # -- harness injection
     lib = os.path.join(dest, "src", "lib.rs")
     s = open(lib).read()
-    if "verif_kani" in s:
-        raise ShadowError("lib.rs already mentions verif_kani")
+    if "mod verif_kani" in s:
+        raise ShadowError("lib.rs already declares verif_kani")
     s = s.replace("#![forbid(unsafe_code)]", "#![deny(unsafe_code)]")
     open(lib, "w").write(s + LIB_INJECT)
     gen = ["// generated by /verif/lib/bcv/shadow.py -- do not edit\n",
